@@ -18,6 +18,8 @@ CLAIMED = {
          "deterministic simulation: differential execution across cache configurations / backends / restart points + reference model"),
  "C09": ("exploration", "7 C09", "A real file-backed shard with a shared cache (cold / half-warm / warm) is driven by 2-4 searcher tasks and 1-2 writer tasks; the seeded scheduler (random, PCT with change points inside the run, sticky) decides who runs at every storage operation, transaction boundary, cache-manager lock, node lock, channel and WaitGroup operation. The recorded history (invoke/return and commit stamps from the global event counter) is checked: no panic in any goroutine and no storage handle used after its transaction ended; no search error; every returned (id, document) is a committed version live in a committed state inside the search interval; per-id _id read/write histories linearizable against a register model with porcupine v1.3.0; write outcomes equal the model applied in storage-transaction order; final state = model; warm panel = cold panel.",
          "deterministic simulation: seeded interleaving search over N client tasks + history checking (committed-version window, porcupine linearizability, commit-order refinement)"),
+ "C11": ("exploration", "7 C11", "The real cache.Manager alone (world M) with synthetic cachables mirroring a tiny versioned committed storage. Up to 3 concurrent transactions, each a program of 1-4 With accesses (read-only / writing, sequential or in parallel goroutines) on names {a,b} followed by Commit; callbacks and constructors fail per the fault plan; storage failure => Commit(true); Release at seeded moments; size limits -1 / 0 / small (pruning). Every lock operation inside With / Commit / checkAndPrune and every yield inside callbacks is a scheduling point of the seeded scheduler. Invariants checked inside instrumented callbacks: writer isolation per object, non-reuse of scrapped objects, no uncommitted or aborted write visible, no cache older than the holder's snapshot, no deadlock (lock-waiter tracking), progress of fresh transactions on every name afterwards.",
+         "deterministic simulation: seeded interleaving of cache transactions at every lock operation + isolation / scrap / staleness / progress invariants"),
  "C10": ("exploration", "7 C10", "Seeded histories (large inserts, updates that add/change/remove the vector field in one batch, deletes of a point with all its out-neighbours read from the previous dump, re-insertion into freed node ids, reopen) on a real shard with a Vamana index; insert workers interleaved and map orders permuted by the simulator. After every successful write the committed file is dumped with bbolt directly and structural invariants are checked: node set = vector set = entry + live points with the field, edges to existing other nodes, degree bound, recorded max node id, uuid<->node id bijection equal to the model, free list vs live ids, stored plain vectors.",
          "deterministic simulation: seeded scheduler + structural invariants over raw bucket dumps after every write"),
  "C07": ("fault_enumeration", "7 C07", "For sampled (history, schedule) pairs a fault-free dry run counts the storage operations of a target write batch; then one fault per simulated process life: validation rejections, error from the k-th put/delete/scan/bucket-open, commit failure, disk full and meta-write failure (bbolt's own gofail failpoints), process kill at the k-th storage operation / before commit / between data and meta sync / after commit. Quick samples 5 faults per history; thorough additionally enumerates every kind x every k of the batch for a third of the histories (exhaustive for that batch). Oracle: failed call => warm answers, cold answers on a file copy and the logical file digest equal the pre-batch state and the rest of the history still behaves; success => post-batch state; kill => the reopened file is exactly the pre- or post-batch state as the crash point dictates; any panic in any goroutine or use of a storage handle after its transaction ended is a violation.",
